@@ -123,17 +123,18 @@ def run(ctx, config="default"):
         else:
             ctx.finding("C14.S3", dfn, "decoy-salt", "a decoy digest is not the hash of a fresh generator call: %s" % vstr(rvd, 4))
     # ---- S4 digest plumbing
-    rvn = peel(dv.return_value())
-    if rvn.kind == "agg" and set(rvn.d["agg"].get("fields") or []) >= {"raw_b64", "hash"}:
+    from val import struct_return, derives_through
+    host, rvn, chain = struct_return(fx, D)
+    if rvn is not None and rvn.kind == "agg" and set(rvn.d["agg"].get("fields") or []) >= {"raw_b64", "hash"}:
         fields = rvn.d["agg"]["fields"]
         raw, h = rvn.kids[fields.index("raw_b64")], rvn.kids[fields.index("hash")]
         rawp, hp = peel(raw), peel(h)
-        ok1 = rawp.kind == "call" and rawp.d["term"].get("resolved") == "utils::base64url_encode" and may(rawp.kids[0], lambda x: x.kind == "call" and x.d["term"].get("resolved") == "std::fmt::format")
+        ok1 = rawp.kind == "call" and rawp.d["term"].get("resolved") == "utils::base64url_encode" and derives_through(chain, host, rawp.kids[0], lambda x: x.kind == "call" and x.d["term"].get("resolved") == "std::fmt::format")
         ok2 = hp.kind == "call" and hp.d["term"].get("resolved") == "utils::base64_hash" and peel(hp.kids[0]) is rawp
         if ok1 and ok2:
-            ctx.ok("C14.S4", D, "digest-of-text", "hash = base64_hash(raw_b64.as_bytes()), raw_b64 = base64url_encode(disclosure text)")
+            ctx.ok("C14.S4", host, "digest-of-text", "hash = base64_hash(raw_b64.as_bytes()), raw_b64 = base64url_encode(disclosure text)")
         else:
-            ctx.finding("C14.S4", D, "digest-of-text", "the embedded digest is not base64_hash over the disclosure's own base64url text (raw: %s; hash: %s)" % (vstr(raw, 4), vstr(h, 4)))
+            ctx.finding("C14.S4", host, "digest-of-text", "the embedded digest is not base64_hash over the disclosure's own base64url text (raw: %s; hash: %s)" % (vstr(raw, 4), vstr(h, 4)))
     else:
         ctx.finding("C14.S4", D, "digest-of-text", "the constructor does not return {raw_b64, hash}")
     bh = fx.fn("utils::base64_hash")
